@@ -4,6 +4,7 @@ import struct
 from driver.common import Case
 
 ID = "C14"
+NEEDS_BINARY = True
 LEAN_MODULES = ["Gv.Props.C14"]
 REQUIRED_THEOREMS = ["Gv.Props.C14." + n for n in [
     "maxLoop_eq_foldl", "maxLoop_perm", "maxLoop_is_argmax", "charStatsSite_error_iff", "entropy_error_iff",
@@ -78,7 +79,7 @@ def prof_al(rng, alpha, L):
     return [("p%d" % i, "".join(rng.choice(sub) for _ in range(L))) for i in range(rng.randint(1, 4))]
 
 
-def gen(rng, tier):
+def _gen_core(rng, tier):
     N = 250 if tier == "quick" else 2500
     rep = 200
     for _ in range(N):
@@ -143,6 +144,8 @@ def _close(a, b):
 
 
 def matches(c):
+    if c.op.startswith("det"):
+        return (c.impl or "").startswith("same")
     """model = implementation; float tokens `f:<bits>[:decimal]` are compared by class and relative tolerance"""
     if c.model == c.impl:
         return True
@@ -197,3 +200,16 @@ def shrink(c):
         r2 = rows[:i] + rows[i + 1:]
         if r2:
             yield Case(c.op, [a[0], rows_str(r2)] + a[2:])
+
+
+# ---- command-line glue: a multi-alignment Phylip input must be treated as its alignments one by one (`detmulti`) ----
+MULTI_CMDS = [['consensus'], ['consensus', '--ignore-gaps'], ['compute', 'pssm', '-n', '1'], ['stats', 'char'], ['stats', 'alleles'], ['stats']]
+
+
+def gen(rng, tier):
+    from driver import multigen
+    for c in _gen_core(rng, tier):
+        yield c
+    for _ in range(2 if tier == "quick" else 20):
+        for argv in MULTI_CMDS:
+            yield multigen.multi_case(multigen.alignments(rng), argv, "cli-multi-" + "-".join(argv[:2]))
